@@ -7,6 +7,9 @@ From Ivv Require Timer.HeapModel Timer.HeapBase Timer.HeapFacts Timer.HeapCollec
 Import ListNotations.
 Local Open Scope Z_scope.
 
+Section RA.
+Context `{RAi : RawAssume}.
+
 Lemma T1_call : forall s e, T1 s ->
   match e with TCallFd _ _ _ _ | TCallEvent _ | TCallRaw _ => True | _ => False end -> T1 (emit s e).
 Proof.
@@ -32,7 +35,7 @@ Qed.
 Lemma G1_TCallTimer : forall m j now, G1 m -> a_exp m j <= now -> G1 (mon_step m (TCallTimer j now)).
 Proof.
   intros m j now G L c Hc. destruct (Z.eq_dec c 401) as [->|N]; [apply NF_TCallTimer_401; [apply G; exact Hc|exact L]|].
-  apply NF_step; [apply G; exact Hc|]. cbn in Hc. cbn. intuition (subst; try discriminate; congruence).
+  apply NF_step; [apply G; exact Hc|]. apply Act_all in Hc. cbn in Hc. cbn. intuition (subst; try discriminate; congruence).
 Qed.
 
 Lemma NF_TCallTask_603 : forall m k, NF 603 m -> ~ In k (ran m) -> NF 603 (mon_step m (TCallTask k)).
@@ -47,7 +50,7 @@ Qed.
 Lemma G1_TCallTask : forall m k, G1 m -> ~ In k (ran m) -> G1 (mon_step m (TCallTask k)).
 Proof.
   intros m k G L c Hc. destruct (Z.eq_dec c 603) as [->|N]; [apply NF_TCallTask_603; [apply G; exact Hc|exact L]|].
-  apply NF_step; [apply G; exact Hc|]. cbn in Hc. cbn. intuition (subst; try discriminate; congruence).
+  apply NF_step; [apply G; exact Hc|]. apply Act_all in Hc. cbn in Hc. cbn. intuition (subst; try discriminate; congruence).
 Qed.
 
 Section Loop.
@@ -420,3 +423,4 @@ Proof.
   apply (Q1T_l s s1); [intros H; exact H|]. apply tasks_loop_Q1; assumption.
 Qed.
 End Loop.
+End RA.
